@@ -39,17 +39,29 @@ class RecServer(protocol.BasicDBusProtocol):
     def connectionAuthenticated(self):
         self.auth_calls += 1
 
+    pending_pieces = None      # set by the re-entrant scenario: reads still to come
+
+    def _pull(self):
+        # an in-process peer (loopback transport, embedded bus) answers synchronously: the next read arrives while
+        # the handler of the current message is still running
+        if self.pending_pieces:
+            self.dataReceived(self.pending_pieces.pop(0))
+
     def methodCallReceived(self, m):
         self.got.append(('call', m))
+        self._pull()
 
     def methodReturnReceived(self, m):
         self.got.append(('return', m))
+        self._pull()
 
     def errorReceived(self, m):
         self.got.append(('error', m))
+        self._pull()
 
     def signalReceived(self, m):
         self.got.append(('signal', m))
+        self._pull()
 
 
 class RecClient(RecServer):
@@ -128,7 +140,7 @@ def crlf_sequence(seed, idx):
     return out
 
 
-def run_partition(ctx, mode, seq, cuts, with_handshake, case, stream=None):
+def run_partition(ctx, mode, seq, cuts, with_handshake, case, stream=None, reentrant=False):
     """Feed handshake (+) stream cut at `cuts`; compare delivered with sent.  Returns True if equal."""
     ep = make(mode)
     hs = handshake_bytes(mode)
@@ -141,9 +153,16 @@ def run_partition(ctx, mode, seq, cuts, with_handshake, case, stream=None):
         total = body
     ctx.count('evaluations')
     pieces = simnet.chunks_of(total, cuts)
-    for ch in pieces:
-        if not ep.feed(ch):
-            break
+    if reentrant:
+        ctx.count('reentrant_partitions')
+        ep.proto.pending_pieces = list(pieces)
+        while ep.proto.pending_pieces:
+            if not ep.feed(ep.proto.pending_pieces.pop(0)):
+                break
+    else:
+        for ch in pieces:
+            if not ep.feed(ch):
+                break
     got = ep.proto.got
     ok = (not ep.crashes and len(got) == len(seq) and ep.proto.auth_calls == 1 and not ep.t.disconnecting)
     if ok:
@@ -272,6 +291,11 @@ def run(ctx):
             ctx.count('bytewise_runs')
         run_partition(ctx, mode, seq, [], False, dict(case, cuts=[], hs=False))
         run_partition(ctx, mode, seq, [], True, dict(case, cuts=[], hs=True))
+        # reads that arrive while the handler of an earlier message is still running (synchronous in-process peer)
+        for j in range(4):
+            cuts = simnet.random_partition(rng, n, rng.choice([16, 64, 200]))
+            run_partition(ctx, mode, seq, cuts, False, dict(case, cuts=list(cuts), hs=False, reentrant=True),
+                          reentrant=True)
         for j in range(6):
             mean = rng.choice([1.5, 4, 16, 64, 700])
             hs = rng.random() < 0.5
